@@ -6,6 +6,12 @@ package main
 // evaluation would fork three ways per comparison. They are transcribed here branch-free, field for
 // field (summarised pure callees); everything else of package time runs as real code.
 
+import (
+	"go/types"
+
+	"golang.org/x/tools/go/ssa"
+)
+
 const (
 	timeHasMonotonic   = uint64(1) << 63
 	timeNsecMask       = uint64(1)<<30 - 1
@@ -71,4 +77,32 @@ func init() {
 		w, e := in.timeParts(a[0])
 		return tb.BAnd(tb.Eq(in.timeSec(w, e), tb.Int(TI64, 0)), tb.Eq(in.timeNsec(w), tb.Int(TI32, 0)))
 	})
+}
+
+// time.NewTicker / NewTimer: the runtime timer heap is not modelled. A ticker or timer created under
+// the solver never fires (its channel stays empty), i.e. less than the interval elapses during the
+// analysed call; Stop/Reset are accepted. (time.After and timers whose expiry matters are unsupported.)
+func init() {
+	mk := func(typ string) intrinsic {
+		return func(in *Interp, _ *frame, _ *ssa.Function, a []Value) (Value, bool) {
+			tp := in.prog.ImportedPackage("time")
+			tt := tp.Type(typ).Type()
+			st := tt.Underlying().(*types.Struct)
+			val := in.zero(tt).(Struct)
+			for i := 0; i < st.NumFields(); i++ {
+				if st.Field(i).Name() == "C" {
+					val[i] = &Chan{cap: 1, elem: tp.Type("Time").Type()}
+				}
+			}
+			cell := new(Value)
+			*cell = val
+			return Ptr{cell: cell}, true
+		}
+	}
+	reg("time.NewTicker", mk("Ticker"))
+	reg("time.NewTimer", mk("Timer"))
+	regSimple("(*time.Ticker).Stop", func(in *Interp, a []Value) Value { return nil })
+	regSimple("(*time.Ticker).Reset", func(in *Interp, a []Value) Value { return nil })
+	regSimple("(*time.Timer).Stop", func(in *Interp, a []Value) Value { return in.tb.True })
+	regSimple("(*time.Timer).Reset", func(in *Interp, a []Value) Value { return in.tb.True })
 }
